@@ -93,8 +93,8 @@ Definition run_chk (fs : node) (roots : list path) (c : chk) : N :=
   | CSelf f names is_pkg => if mval_eqb (script_module roots f) (VMod f is_pkg names) then 0 else 8
   | CU r names is_pkg valid => if implb (unshadowed fs roots r names is_pkg) valid then 0 else 16
   end%N.
-Definition Q (l : nat) (p : list str) (n pr : option str) : query :=
-  {| q_level := l; q_path := p; q_name := n; q_probe := pr |}.
+Definition Q (l : nat) (p : list str) (n pr : option str) (al : bool) : query :=
+  {| q_level := l; q_path := p; q_name := n; q_probe := pr; q_alias := al |}.
 Definition opt_strs_eqb (a b : option (list str)) : bool :=
   match a, b with
   | None, None => true
@@ -317,7 +317,8 @@ def canon_defs(ds, base):
         mp = d.module_path
         rel = os.path.relpath(str(mp), base) if mp is not None else None
         if d.type == 'module':
-            out.append(['file', rel])
+            # a sub-module name that does not resolve shows the module_path of its parent package
+            out.append(['file', rel if d._name.infer() else None])
         elif d.type == 'namespace':
             ps = []
             for v in d._name.infer():
@@ -588,8 +589,9 @@ class Lit:
         return self.node(n)
 
     def query(self, q):
-        return '(Q %s %s %s %s)' % (g_nat(q['level']), self.names(q['path']), g_opt(q['name'], self.s),
-                                    g_opt(q['probe'], self.s))
+        return '(Q %s %s %s %s %s)' % (g_nat(q['level']), self.names(q['path']), g_opt(q['name'], self.s),
+                                       g_opt(q['probe'], self.s),
+                                       g_bool(q['name'] is not None and q.get('surface') == 1))
 
     def res(self, r):
         """canonical observation -> Gallina res (None if it has no counterpart)"""
